@@ -271,8 +271,23 @@ func (w *C10) Run(x *simkit.Ctx) {
 		}
 		ks, vs := sortedKV(keys, m, idxs)
 		before := append([]byte{}, tr.Root...)
-		if _, err := tr.Update(ks, vs); err != nil {
-			x.Fail("C10", "update-error", "update", fmt.Sprintf("Update: %v", err), idx)
+		var uerr error
+		upanic := func() (p string) {
+			defer func() {
+				if r := recover(); r != nil {
+					p = fmt.Sprint(r)
+				}
+			}()
+			_, uerr = tr.Update(ks, vs)
+			return ""
+		}()
+		if upanic != "" {
+			// a sorted batch of puts/deletes is always a legal input: a panic of the trie is a violation
+			x.Fail("C10", "update-panicked", "update", fmt.Sprintf("Update of a legal sorted batch (%d keys) panicked: %s", len(ks), upanic), idx)
+			return false, false
+		}
+		if uerr != nil {
+			x.Fail("C10", "update-error", "update", fmt.Sprintf("Update: %v", uerr), idx)
 			return false, false
 		}
 		for k, v := range m {
